@@ -166,13 +166,16 @@ Section Base.
     Variable gt_min : GT -> nat.
     Variable gt_dmi : GT -> option A -> GT.
     Variable grep : bool -> GT -> list (option A) -> Prop.
-    Hypothesis Gok : gtree_ok ltb gt_init gt_min gt_dmi grep.
+    Variable gsize : nat -> Prop.
+    Hypothesis Gok : gtree_ok ltb gsize gt_init gt_min gt_dmi grep.
     Variable UT : Type.
     Variable ut_init : bool -> A -> list A -> UT.
     Variable ut_min : UT -> option nat.
     Variable ut_dmi : UT -> A -> UT.
     Variable urep : bool -> UT -> A -> list A -> Prop.
-    Hypothesis Uok : utree_ok ltb ut_init ut_min ut_dmi urep.
+    Variable usize : nat -> Prop.
+    Variable ukey : A -> A -> Prop.
+    Hypothesis Uok : utree_ok ltb usize ukey ut_init ut_min ut_dmi urep.
 
     Notation base := (mwm_base ltb GT gt_init gt_min gt_dmi UT ut_init ut_min ut_dmi).
 
@@ -181,6 +184,23 @@ Section Base.
       forall b (st : state) sz, sz <= total st ->
         exists o st', merge_bubble ltb b st sz = Some (o, st') /\ mrun b st o st' /\ length o = sz.
     Hypothesis Hbubble : bubble_spec.
+
+    (** The algorithm actually run, and the side conditions of the trees (only k >= 5 uses a tree): sizes, and
+        the keys handed to the unguarded tree may be handed to it. *)
+    Definition eff_alg (alg : mwma) (sentinels : bool) : mwma :=
+      match alg with MWMA_LOSER_TREE_SENTINEL => if sentinels then alg else MWMA_LOSER_TREE_COMBINED | _ => alg end.
+
+    Definition side_ok (alg : mwma) (sentinels : bool) (st : state) (sents : list A) : Prop :=
+      5 <= length st ->
+      gsize (length st) /\ usize (length st) /\
+      (eff_alg alg sentinels = MWMA_LOSER_TREE_COMBINED ->
+         forall sen, last_error (hd [] st) = Some sen -> keys_ok ukey sen st) /\
+      (eff_alg alg sentinels = MWMA_LOSER_TREE_SENTINEL ->
+         forall z0, hd_error sents = Some z0 -> keys_ok ukey z0 st /\ (forall z, In z sents -> ukey z0 z)).
+
+    Lemma side_ok_trivial alg sentinels st sents :
+      (forall n, gsize n) -> (forall n, usize n) -> (forall s x, ukey s x) -> side_ok alg sentinels st sents.
+    Proof. intros Hg Hu Hk _. split; [apply Hg|]. split; [apply Hu|]. split; intros; [intros l x _ _; apply Hk|]. split; [intros l x _ _; apply Hk|intros; apply Hk]. Qed.
 
     Lemma weaken_to b (st : state) o st' : mrun true st o st' -> mrun b st o st'.
     Proof. destruct b; auto. apply mrun_weaken. Qed.
@@ -204,9 +224,10 @@ Section Base.
 
     Theorem mwm_base_correct stable sentinels alg (st : state) sents sz :
       sorted_state ltb st -> sz <= total st -> (sentinels = true -> sent_ok st sents) ->
+      side_ok alg sentinels st sents ->
       exists o st', base stable sentinels alg st sents sz = Some (o, st') /\ mrun stable st o st' /\ length o = sz.
     Proof.
-      intros Hs Hsz Hsent. unfold mwm_base.
+      intros Hs Hsz Hsent Hside. unfold mwm_base.
       set (alg' := match alg with MWMA_LOSER_TREE_SENTINEL => if sentinels then alg else MWMA_LOSER_TREE_COMBINED | _ => alg end).
       destruct st as [|l0 [|l1 [|l2 [|l3 [|l4 rest]]]]].
       - (* k = 0 *)
@@ -248,25 +269,32 @@ Section Base.
       - (* k >= 5 *)
         set (st := l0 :: l1 :: l2 :: l3 :: l4 :: rest) in *.
         assert (Hne : st <> []) by discriminate.
-        assert (Hc : exists o st', merge_lt_combined ltb GT gt_init gt_min gt_dmi UT ut_init ut_min ut_dmi stable st sz = Some (o, st') /\
-                                   mrun stable st o st' /\ length o = sz)
-          by (apply (merge_lt_combined_correct ltb H GT gt_init gt_min gt_dmi grep Gok UT ut_init ut_min ut_dmi urep Uok); auto).
-        unfold alg'. destruct alg.
-        + destruct (merge_lt_correct ltb GT gt_init gt_min gt_dmi grep Gok stable st sz) as (o & st' & E & R & L).
+        destruct (Hside ltac:(simpl; lia)) as (Hgs & Hus & Hkc & Hks).
+        assert (Hc : eff_alg alg sentinels = MWMA_LOSER_TREE_COMBINED ->
+                     exists o st', merge_lt_combined ltb GT gt_init gt_min gt_dmi UT ut_init ut_min ut_dmi stable st sz = Some (o, st') /\
+                                   mrun stable st o st' /\ length o = sz).
+        { intros Ea. apply (merge_lt_combined_correct ltb H GT gt_init gt_min gt_dmi grep gsize Gok UT ut_init ut_min ut_dmi urep usize ukey Uok); auto. }
+        unfold alg'. unfold eff_alg in Hc, Hks. destruct alg.
+        + destruct (merge_lt_correct ltb GT gt_init gt_min gt_dmi grep gsize Gok stable st sz Hgs) as (o & st' & E & R & L).
           exists o, st'. split; [exact E|]. split; [exact R|lia].
-        + exact Hc.
-        + destruct sentinels; [|exact Hc].
+        + exact (Hc eq_refl).
+        + destruct sentinels; [|exact (Hc eq_refl)].
           specialize (Hsent eq_refl). pose proof Hsent as [Ls Hgt].
           destruct sents as [|z0 sents']; [simpl in Ls; discriminate|].
           unfold merge_lt_sentinel.
           assert (Ews : with_sentinels st (z0 :: sents') = (l0 ++ [z0]) :: with_sentinels (l1 :: l2 :: l3 :: l4 :: rest) sents') by reflexivity.
           assert (Tws : total st <= total (with_sentinels st (z0 :: sents'))) by (rewrite ws_total by exact Ls; lia).
-          destruct (merge_lt_unguarded_correct ltb UT ut_init ut_min ut_dmi urep Uok stable (l0 ++ [z0])
+          destruct (Hks eq_refl z0 eq_refl) as [Hkr Hkz].
+          destruct (merge_lt_unguarded_correct ltb UT ut_init ut_min ut_dmi urep usize ukey Uok stable (l0 ++ [z0])
                       (with_sentinels (l1 :: l2 :: l3 :: l4 :: rest) sents') sz z0) as (o & ext' & E & R & L).
           * clear. induction l0 as [|x r IH]; [reflexivity|]. simpl. destruct (r ++ [z0]) eqn:Er; [destruct r; discriminate|exact IH].
           * rewrite <- Ews. apply ws_nonempty.
           * rewrite <- Ews. lia.
           * rewrite <- Ews. apply sentinels_ugood; auto.
+          * rewrite <- Ews. rewrite ws_length by exact Ls. exact Hus.
+          * rewrite <- Ews. intros l x Hl Hx. unfold with_sentinels in Hl. apply in_map_iff in Hl.
+            destruct Hl as ([l' z] & <- & Hin). simpl in Hx. apply in_app_or in Hx.
+            destruct Hx as [Hx|[<-|[]]]; [apply (Hkr l' x); auto; eapply in_combine_l; eauto|apply Hkz; eapply in_combine_r; eauto].
           * rewrite <- Ews in E, R.
             destruct (mrun_sentinels stable st (z0 :: sents') _ _ Hsent R ltac:(lia)) as (st' & E' & R' & [L' _]).
             rewrite E, E', strip_ok by exact L'. eauto.
